@@ -79,16 +79,30 @@ pub fn run_case_cfg(case: &str, wasm: &[u8], variant: Variant, dwarf: bool, stat
     };
     m.customs.add(Spy(seen.clone()));
     // edits
-    let mut inserted: std::collections::HashMap<usize, usize> = Default::default(); // input local-function ordinal -> ops inserted at the start
+    // input local-function ordinal -> (position among the surviving operators of the function, number
+    // of operators inserted there). The two operators go to the start of the entry sequence, behind
+    // its first instruction (when that is a plain one) or to its end, in turn: an inserted
+    // instruction has parsed neighbours on either side in the last two cases.
+    let mut inserted: std::collections::HashMap<usize, (usize, usize)> = Default::default();
     let ni = a.n_imported(Space::Func) as usize;
     if variant == Variant::Inserted {
         let ids: Vec<_> = m.funcs.iter_local().map(|(id, _)| id).collect();
         for (k, id) in ids.iter().enumerate() {
             if k % 2 == 0 {
+                let ord = id.index() - ni;
+                let survivors = a.code.get(ord).map(|c| elided_with_offsets(&c.ops).len()).unwrap_or(1);
                 let f = m.funcs.get_mut(*id).kind.unwrap_local_mut();
                 let entry = f.entry_block();
-                f.builder_mut().instr_seq(entry).drop_at(0).const_at(0, walrus::ir::Value::I32(7));
-                inserted.insert(id.index() - ni, 2);
+                let len = f.block(entry).instrs.len();
+                let first_is_plain = f.block(entry).instrs.first().map(|(i, _)| !matches!(i, walrus::ir::Instr::Block(_) | walrus::ir::Instr::Loop(_) | walrus::ir::Instr::IfElse(_))).unwrap_or(false);
+                let (pos, flat) = match (k / 2) % 3 {
+                    1 if first_is_plain => (1, 1),
+                    2 => (len, survivors.saturating_sub(1)),
+                    _ => (0, 0),
+                };
+                f.builder_mut().instr_seq(entry).drop_at(pos).const_at(pos, walrus::ir::Value::I32(7));
+                inserted.insert(ord, (flat, 2));
+                stats.insert_positions[if pos == 0 { 0 } else if pos == len { 2 } else { 1 }] += 1;
             }
         }
     }
@@ -160,7 +174,7 @@ pub fn run_case_cfg(case: &str, wasm: &[u8], variant: Variant, dwarf: bool, stat
     for (k, body) in a.code.iter().enumerate() {
         let Some(&j) = out_of_in.get(&k) else { continue }; // function removed (GC)
         let e = elided_with_offsets(&body.ops);
-        let shift = inserted.get(&k).copied().unwrap_or(0);
+        let (at, shift) = inserted.get(&k).copied().unwrap_or((0, 0));
         let ob = &b.code[j];
         if e.len() + shift != ob.ops.len() {
             fails.push(("C03:operator-count".into(), format!("function {}: {} operators expected, {} emitted", k, e.len() + shift, ob.ops.len())));
@@ -168,7 +182,7 @@ pub fn run_case_cfg(case: &str, wasm: &[u8], variant: Variant, dwarf: bool, stat
         }
         for (idx, (off, _)) in e.iter().enumerate() {
             if let Some(off) = off {
-                expected.entry(*off).or_insert(ob.ops[idx + shift].offset);
+                expected.entry(*off).or_insert(ob.ops[if idx < at { idx } else { idx + shift }].offset);
             }
         }
     }
@@ -243,6 +257,8 @@ pub struct Stats {
     pub cases: usize,
     pub pairs: usize,
     pub samples: usize,
+    /// insertions at the start / behind the first instruction / at the end of the entry sequence
+    pub insert_positions: [usize; 3],
 }
 
 /// `n` tiny functions (count LEB boundaries) with bodies padded to `pad` bytes (size LEB boundaries)
@@ -392,4 +408,7 @@ pub fn main(seed: u64, tier: &str, only: Option<&str>) {
     }
     out::stat("offsets.cases", stats.cases);
     out::stat("offsets.pairs_checked", stats.pairs);
+    out::stat("offsets.insertions_at_start", stats.insert_positions[0]);
+    out::stat("offsets.insertions_behind_the_first_instruction", stats.insert_positions[1]);
+    out::stat("offsets.insertions_at_the_end", stats.insert_positions[2]);
 }
